@@ -71,6 +71,18 @@ fn lax_compose_case(t: &mut Tape, ctx: &mut Ctx) -> CheckResult {
     let got = wf(ctx, "compose-wf", sv::from_strict(&c.to_strict()), "strict(lax f ; lax g)")?;
     let want = f.strictify().unwrap().compose(&g.strictify().unwrap()).expect("types match");
     require_iso(ctx, "lax-compose-is-pushout", &got, &want, "strict(f ; g) for lax operands with pending unifications")?;
+    // when the types differ (same arity, one label changed) every lax entry point reports failure
+    if !f.d.t.is_empty() && al.nl >= 2 {
+        let mut bad = g.clone();
+        let i = t.choice(bad.d.s.len());
+        let old = bad.d.nodes[bad.d.s[i]];
+        bad.d.nodes.push((old + 1) % al.nl as u32);
+        bad.d.s[i] = bad.d.nodes.len() - 1;
+        ctx.sub("compose-rejects-mismatch");
+        let (lf, lb) = (to_lax(&f), to_lax(&bad));
+        ensure!(ctx, Arrow::compose(&lf, &lb).is_none(), "compose-rejects-mismatch", "lax compose returned a diagram although the types differ");
+        ensure!(ctx, (&lf >> &lb).is_none(), "compose-rejects-mismatch", "lax >> returned a diagram although the types differ ({:?} vs {:?})", f.d.target_type(), bad.d.source_type());
+    }
     if !f.d.t.is_empty() && (!f.q.is_empty() || !g.q.is_empty()) {
         ctx.nontrivial(&(&f, &g));
     }
